@@ -148,7 +148,26 @@ func ruleC12FailedCreationCleans(c *Ctx) {
 					return al[base] || al[strip(base)]
 				}
 				r := &ownRules{isRelease: func(j ssa.Instruction, al valueSet) bool {
-					return isFreeOf(j, func(v ssa.Value) bool { return bytesOf(v, al) })
+					if isFreeOf(j, func(v ssa.Value) bool { return bytesOf(v, al) }) {
+						return true
+					}
+					// a helper of the package that is handed the secret and frees its pages on all of its paths
+					if call, isCall := j.(*ssa.Call); isCall {
+						if h := staticCallee(call); h != nil && h.Blocks != nil && h.Pkg == f.Pkg {
+							for k, a := range call.Call.Args {
+								if (al[a] || al[strip(a)]) && k < len(h.Params) {
+									inner := aliasClosure(h.Params[k], nil)
+									okh, _ := mustPass(h.Blocks[0], 0, func(x ssa.Instruction) bool {
+										return isFreeOf(x, func(v ssa.Value) bool { return bytesOf(v, inner) })
+									}, nil)
+									if okh {
+										return true
+									}
+								}
+							}
+						}
+					}
+					return false
 				}}
 				out := checkOwned(i, pr[0], pr[1], r)
 				construct := "protectedmemory.SecretFactory." + m + "/newSecret"
@@ -503,11 +522,27 @@ func ruleC12CloseRetryableBalanced(c *Ctx) {
 func ruleC12FailedCreationDisarms(c *Ctx) {
 	u := c.U1
 	c.rule("C12.failed-creation-disarms", "protectedmemory: every error return of a creation function that follows a successful newSecret passes a step that marks the abandoned secret closed (a method that sets closed = true on every path, or a direct store) or clears its finalizer", 3)
-	marksClosed := func(g *ssa.Function) bool {
-		if g == nil || g.Blocks == nil {
+	var marksClosedD func(g *ssa.Function, depth int) bool
+	marksClosed := func(g *ssa.Function) bool { return marksClosedD(g, 0) }
+	marksClosedD = func(g *ssa.Function, depth int) bool {
+		if g == nil || g.Blocks == nil || depth > 2 {
 			return false
 		}
 		ok, _ := mustPass(g.Blocks[0], 0, func(j ssa.Instruction) bool {
+			// a helper of the package that does it on all of its paths (and cleans up before, not after: see below)
+			if call, isCall := j.(*ssa.Call); isCall {
+				if h := staticCallee(call); h != nil && h != g && h.Pkg == g.Pkg && marksClosedD(h, depth+1) {
+					late := false
+					pathSearch(j, func(k ssa.Instruction) pathAction {
+						if op := mcOp(k); op == "Unlock" || op == "Free" || staticIs(k, pkgMemcall+".Clean") {
+							late = true
+							return pathFound
+						}
+						return pathContinue
+					}, nil)
+					return !late
+				}
+			}
 			st, isS := j.(*ssa.Store)
 			if !isS {
 				return false
